@@ -5,7 +5,7 @@ d=$1; shift; name=$(basename $d); pid=${name%%_*}; R=/var/tmp/seedrepos_own/$nam
 rm -rf $R; mkdir -p $R; cp -r /repo/src /repo/Cargo.toml $R/
 (cd $R && patch -p1 -s < /verif/$d/patch.diff) || { echo "$name patch failed"; exit 2; }
 for id in $pid "$@"; do
-  out=$(bin/check $id --tier quick --repo $R 2>&1 | grep -v "^WARNING" | tail -4 | tr '\n' '|')
-  echo "$name $id :: ${out:0:520}"
+  out=$(bin/check $id --tier quick --repo $R 2>&1 | grep -v "^WARNING" | tail -3 | tr '\n' '|')
+  echo "$name $id :: ${out:0:900}"
 done
 rm -rf $R
